@@ -39,3 +39,14 @@ claim("C02",
       "differential PBT: Hypothesis-generated structurally terminating control-flow programs, event-trace comparison between the Color BASIC and BASIC09 reference interpreters under all four option sets",
       "Generated-input search over nested blocks of IF/ELSE/ELSE-IF, FOR/NEXT (STEP, bare NEXT, NEXT lists), GOTO/GOSUB/ON, END/STOP; the oracle compares the full sequence of observable events and the way the run ends, and requires the translation to stop when the source stops.",
       LANG_NOTE, "DESIGN.md section 6, C02")
+
+PARSE_NOTE = ("Trusts the strict BASIC09 parser written for this purpose (vf/b09/lex.py, vf/b09/parse.py: statement grammar, reserved-word list, "
+              "block nesting rules) and, where used, the library scanner; both read emitted text through the parser, never by matching the tool's present spelling. ")
+claim("C06",
+      "PBT with a validity predicate over the output: Hypothesis-generated reference graphs, reference/definition sets derived from the AST, labels and jump targets read from the parsed output, metamorphic filter-on vs filter-off comparison, dispatcher block executed in the BASIC09 reference interpreter",
+      "Generated-input search over programs with arbitrary reference graphs and all four filter_unused_linenum x add_suffix combinations; decides refusal conditions, target/label correspondence (via per-line markers), exact label sets, 'only labels differ' between filter settings, and the routing of injected error numbers by the 32700 dispatcher.",
+      PARSE_NOTE + "The dispatcher's 'errnum' is taken to mean the trapped error number.", "DESIGN.md section 6, C06")
+claim("C07",
+      "grammar-directed PBT with a validity predicate: full-grammar random programs and the bundled examples under drawn option sets, output must be accepted by a strict BASIC09 parser (statements, block nesting, operands, literals, reserved words) and contain no internal object text",
+      "Generated-input search over all statement kinds (every device-statement form and presence pattern) and option sets incl. dependencies; the oracle is a strict parser plus block-structure check, permissive about everything the property excludes (types, case, spacing).",
+      PARSE_NOTE, "DESIGN.md section 6, C07")
